@@ -934,12 +934,32 @@ func C09(c *Ctx) {
 	// ---- R2
 	canon := c.P.Func("core", "", "Canonicalize")
 	var bsStores []*ssa.Store
-	for _, f := range pkgClosure(exec) {
+	scope := pkgClosure(exec)
+	for _, f := range scope {
 		bsStores = append(bsStores, storesToPkg(f, "core", "Execution", "Bs")...)
+		// a helper may be handed the address of the field (`asBindings(x, &exe.Bs)`) and store through it
+		ssau.Instrs(f, func(in ssa.Instruction) {
+			st, ok := in.(*ssa.Store)
+			if !ok || !isBindingsT(st.Val.Type()) {
+				return
+			}
+			if _, isP := st.Addr.(*ssa.Parameter); !isP {
+				return
+			}
+			ds := deepDefs(st.Addr, scope)
+			all := len(ds) > 0
+			for _, d := range ds {
+				if !ssau.IsField(d, prog.Abs("core"), "Execution", "Bs") {
+					all = false
+				}
+			}
+			if all {
+				bsStores = append(bsStores, st)
+			}
+		})
 	}
 	okCanon := len(bsStores) > 0
 	whyC := "Exec never sets the execution's bindings"
-	scope := pkgClosure(exec)
 	isCanonResult := func(v ssa.Value) bool {
 		ex, ok := v.(*ssa.Extract)
 		if !ok {
